@@ -26,7 +26,7 @@ ASSUMPTIONS = [
     "numpy.einsum and the harness's own gather-based evaluator agree (checked per case)",
     "numpy backend only; autojit / cuquantum / other backends unobserved",
 ]
-REQUIRED_MONITORS = ["unicode_labels", "value_vs_E1", "step_tensordot", "step_einsum", "step_preprocess"]
+REQUIRED_MONITORS = ["related_trees", "unicode_labels", "value_vs_E1", "step_tensordot", "step_einsum", "step_preprocess"]
 SHARD_TIMEOUT = {"quick": 400, "thorough": 3600}
 
 
@@ -82,6 +82,10 @@ def execute(rep, case, deep=False):
         msg = ref.compare(got, want, bound, nsum, net.N)
         if msg:
             return ("value", msg)
+    if case.get("related") and not deep:
+        bad = related_trees(rep, net, tree, arrays, o, cs, case["kind"], want, bound, nsum)
+        if bad:
+            return bad
     if rec is not None:
         for c in rec.calls:
             if c[0] == "tensordot":
@@ -94,6 +98,46 @@ def execute(rep, case, deep=False):
             bad = check_intermediates(rep, net, tree, arrays, rec, o, cs)
             if bad:
                 return bad
+    return None
+
+
+def related_trees(rep, net, tree, arrays, opts, cs, kind, want, bound, nsum):
+    """A tree, its copies and trees derived from it without modifying it are DIFFERENT objects: each is a
+    complete tree over the network (some with sliced indices) and each must give the einsum value with the
+    same options, whatever was done to - or contracted through - the others before, in any interleaving."""
+    r = rng_for(cs, "related")
+    inds = [ix for ix in net.size_dict if any(ix in t for t in net.inputs)]
+    if not inds:
+        return None
+    o = {k: v for k, v in opts.items() if k != "impl" or v != "recorder"}
+    fam = [("original", tree)]
+    a = tree.remove_ind(r.choice(inds))
+    fam.append((f"remove_ind({list(a.sliced_inds)}) of the original", a))
+    b = tree.copy()
+    b.remove_ind_(r.choice(inds))
+    fam.append((f"copy then remove_ind_({list(b.sliced_inds)})", b))
+    free = [ix for ix in inds if ix not in a.sliced_inds]
+    if free and r.random() < 0.6:
+        c = a.remove_ind(r.choice(free))
+        fam.append((f"remove_ind({list(c.sliced_inds)}) of the sliced copy", c))
+    if r.random() < 0.5:
+        fam.append(("plain copy of the original", tree.copy()))
+    order = [r.randrange(len(fam)) for _ in range(r.randint(len(fam) + 1, 2 * len(fam) + 1))]
+    for step, k in enumerate(order):
+        label, t = fam[k]
+        try:
+            got = ct.contract_with(t, arrays, o, rng_for(cs, "order"))
+        except Exception as e:
+            return ("related_raises", f"step {step} of {[fam[i][0] for i in order[:step + 1]]}: contracting '{label}' raised {type(e).__name__}: {e}")
+        rep.mon("related_trees")
+        got = np.asarray(got)
+        if kind == "int":
+            if got.shape != want.shape or not np.array_equal(got, want):
+                return ("related_value", f"step {step} of {[fam[i][0] for i in order[:step + 1]]}: '{label}' gives shape {got.shape} (expected {want.shape}) / other values")
+        else:
+            msg = ref.compare(got, want, bound, nsum, net.N)
+            if msg:
+                return ("related_value", f"step {step} of {[fam[i][0] for i in order[:step + 1]]}: '{label}': {msg}")
     return None
 
 
@@ -150,7 +194,7 @@ def gen_case(rng, cs, tier):
     ssa = gen.random_ssa(rng, net.N)
     kind = rng.choice(["float", "complex", "int"])
     opts = ct.random_opts(rng)
-    return {"net": net.to_json(), "ssa": ssa, "kind": kind, "opts": opts, "case_seed": cs}
+    return {"net": net.to_json(), "ssa": ssa, "kind": kind, "opts": opts, "case_seed": cs, "related": rng.random() < 0.2}
 
 
 def run_shard(rep, tier, seed, shard, nshards):
